@@ -18,7 +18,14 @@ import (
 // 0..3, forward and from-the-end paging, room for every row: the table holds exactly the rows inside
 // the marker window (each once, none outside, whichever level they live in), in paging order, and
 // has-more stays off.
-func Harness_C25_table_two_lods() {
+func Harness_C25_table_two_lods() { c25Table(false) }
+
+// the same with eight functions (count, min, max, sum, avg, stddev, cardinality, unique - more than one
+// storage pass) and a row limit of 2..5 or 100: when the limit leaves room for every in-window row, all
+// of them are present, has-more stays off, and every row carries one column per function
+func Harness_C25_table_two_passes() { c25Table(true) }
+
+func c25Table(twoPasses bool) {
 	loc := time.UTC
 	p := tableReqParams{
 		req: seriesRequest{
@@ -28,6 +35,11 @@ func Harness_C25_table_two_lods() {
 		metricMeta:     &format.MetricMetaValue{},
 		desiredStepMul: 1,
 		location:       loc,
+	}
+	if twoPasses {
+		p.req.what = []promql.SelectorWhat{{Digest: promql.DigestCount}, {Digest: promql.DigestMin}, {Digest: promql.DigestMax}, {Digest: promql.DigestSum},
+			{Digest: promql.DigestAvg}, {Digest: promql.DigestStdDev}, {Digest: promql.DigestCardinality}, {Digest: promql.DigestUnique}}
+		p.req.numResults = []int{2, 3, 4, 5, 100}[v.Choice(5)]
 	}
 	p.req.fromEnd = v.NondetBool()
 	marker := func() RowMarker {
@@ -71,6 +83,16 @@ func Harness_C25_table_two_lods() {
 	h := &requestHandler{Handler: &Handler{HandlerOptions: HandlerOptions{location: loc}}}
 	rows, hasMore, err := h.getTableFromLODs(context.Background(), lods, p, load)
 	v.Assert("C25.table.no_error", err == nil)
+	if twoPasses {
+		inWindow := 0
+		for _, r := range all {
+			inWindow += v.B2I(inRange(r, p.req.fromRow, p.req.toRow, p.req.fromEnd))
+		}
+		v.Assume(inWindow <= p.req.numResults) // room for every in-window row
+		for _, q := range rows {
+			v.Assert("C25.table.one_column_per_function", len(q.Data) == 8)
+		}
+	}
 	want := 0
 	for _, r := range all {
 		in := inRange(r, p.req.fromRow, p.req.toRow, p.req.fromEnd)
